@@ -22,6 +22,7 @@ enum Family {
     F_LADDER,
     F_BOOLEAN,
     F_WIDE,
+    F_JOIN, // several roots, a chain under each, classes joining the chains
     F_COUNT
 };
 
@@ -68,7 +69,7 @@ struct Gen {
                     break;
                 int k = 0;
                 double x = r.below(100) / 100.0;
-                if (x < 0.07)
+                if (x < 0.12)
                     k = 0;
                 else if (x < 0.50)
                     k = 1;
@@ -128,6 +129,38 @@ struct Gen {
                 }
                 break;
             }
+            }
+        }
+        if (family == F_JOIN) {
+            int nroots = r.range(2, 3);
+            std::vector<std::vector<int>> chains(nroots);
+            int i = 0;
+            int chain_len = std::max(1, std::min(4, (n - 1) / nroots));
+            for (int c = 0; c < nroots && i < n; ++c) {
+                int len = r.range(std::max(1, chain_len - 1), chain_len);
+                for (int k = 0; k < len && i < n; ++k, ++i) {
+                    if (k > 0)
+                        p.w.parents[i].push_back(i - 1);
+                    chains[c].push_back(i);
+                }
+            }
+            for (; i < n; ++i) {
+                // a join: parents from two or three different chains (or an
+                // earlier join), usually their tips
+                std::set<int> s;
+                int k = r.range(2, nroots);
+                std::vector<int> which;
+                for (int c = 0; c < nroots; ++c)
+                    if (!chains[c].empty())
+                        which.push_back(c);
+                r.shuffle(which);
+                for (int j = 0; j < k && j < (int)which.size(); ++j) {
+                    auto& ch = chains[which[j]];
+                    s.insert(r.chance(0.7) ? ch.back() : ch[r.below(ch.size())]);
+                }
+                p.w.parents[i].assign(s.begin(), s.end());
+                if (r.chance(0.4))
+                    chains[which[0]].push_back(i); // grows below the join
             }
         }
         if (family == F_BOOLEAN) {
@@ -474,7 +507,7 @@ struct Gen {
     int pick_family() {
         static const int f[] = {F_CHAIN, F_TREE,    F_TREE,  F_DAG,  F_DAG,
                                 F_DAG,   F_DIAMONDS, F_LADDER, F_BOOLEAN,
-                                F_WIDE};
+                                F_WIDE,  F_JOIN};
         return f[r.below(sizeof f / sizeof f[0])];
     }
 
@@ -1371,8 +1404,8 @@ Plan gen_C04(std::uint64_t seed, int tier) {
     Rng r(seed ^ 0xC04);
     BasicOpts o;
     static const int fams[] = {F_DAG, F_DAG, F_DIAMONDS, F_LADDER, F_BOOLEAN,
-                               F_WIDE, F_TREE};
-    o.family = fams[r.below(7)];
+                               F_WIDE, F_TREE, F_JOIN, F_JOIN};
+    o.family = fams[r.below(9)];
     o.min_cls = 3;
     o.max_cls = tier ? 20 : 12;
     o.min_meth = 2;
@@ -1439,8 +1472,8 @@ Plan gen_C08(std::uint64_t seed, int tier) {
     Rng r(seed ^ 0xC08);
     BasicOpts o;
     static const int fams[] = {F_DAG, F_DAG, F_DIAMONDS, F_LADDER, F_BOOLEAN,
-                               F_WIDE, F_TREE, F_CHAIN};
-    o.family = fams[r.below(8)];
+                               F_WIDE, F_TREE, F_CHAIN, F_JOIN, F_JOIN};
+    o.family = fams[r.below(10)];
     static const int styles[] = {ST_DIRECT, ST_DIRECT_SELF, ST_MIXED, ST_SPLIT,
                                  -1};
     o.style = styles[r.below(5)];
